@@ -18,6 +18,7 @@ def lift {β : Type} : Except Proj.Err β → Py.M β
   | .error e => .error (liftErr e)
 
 set_option linter.unusedSectionVars false
+set_option linter.unusedSimpArgs false
 section
 variable {α : Type} [Add α] [Sub α] [Mul α] [Div α] [Neg α] [LT α] [LE α]
   [DecidableLT α] [DecidableLE α] [OfNat α 0]
